@@ -7,12 +7,13 @@ from rsx import RustSrc, AnchorLost
 KDIR = os.path.join(os.path.dirname(os.path.abspath(__file__)), '..', 'contracts', 'kani')
 
 class Harness:
-    def __init__(self, name, bounded=None, timeout=900, expect_cover=True, desc='', domain='', miri=None):
+    def __init__(self, name, bounded=None, timeout=900, expect_cover=True, desc='', domain='', miri=None, fixed=False):
         """miri: optional (crate, rust_expr) — a public-API call reproducing the harness input, with the
         concrete values available as v0, v1, ... (u32 bit patterns / raw little-endian integers);
         used to replay UB-class counterexamples on the real code under Miri."""
         self.name = name; self.bounded = bounded; self.timeout = timeout
         self.desc = desc; self.domain = domain; self.miri = miri
+        self.fixed = fixed   # input-free harness: on failure it is replayed natively as a unit test (no counterexample needed)
 
 class HarnessResult:
     def __init__(self, name):
@@ -190,6 +191,29 @@ def concrete_playback(scratch, crate_dir, harness, harness_file, timeout=900):
     if 'test result: FAILED' in native or 'panicked at' in native or 'error: test failed' in native: reproduced = True
     elif 'test result: ok' in native: reproduced = False
     return test, native, reproduced
+
+def native_fixed_replay(scratch, crate_dir, rel_file, harness_file, name, timeout=900):
+    """Replay an INPUT-FREE harness natively on the scratch copy of the real code: the harness file is copied with its
+    `#[kani::..]` attributes stripped, `#[test]` put on the one harness and a no-op `kani` shim, then `cargo test` runs it.
+    Returns (test_source, native_output, reproduced)."""
+    src = open(os.path.join(scratch, '_verif_harness', harness_file)).read()
+    src = re.sub(r'(?m)^\s*#\[kani::[^\]]*\]\s*\n', '', src)
+    src, n = re.subn(r'(?m)^fn %s\(\)' % re.escape(name), '#[test]\nfn %s()' % name, src)
+    if n != 1: return '', 'harness fn not found for native replay', None
+    shim = ('#![allow(unused, dead_code)]\nmod kani { pub fn any<T>() -> T { panic!("symbolic input reached in native replay") } pub fn assume(_: bool) {}\n'
+            '  macro_rules! cover { ($($t:tt)*) => {} } pub(crate) use cover; }\n')
+    nf = os.path.join(scratch, '_verif_harness', f'native_{name}_' + harness_file)
+    open(nf, 'w').write(shim + src)
+    with open(os.path.join(scratch, rel_file), 'a') as f:
+        f.write(f'\n#[cfg(all(test, not(kani)))]\n#[path = "{nf}"]\nmod verif_native_replay_{name};\n')
+    env = dict(os.environ, CARGO_NET_OFFLINE='true', CARGO_TARGET_DIR=os.path.join(scratch, 'target-native'))
+    p = subprocess.run(['timeout', str(timeout), 'cargo', 'test', '--offline', '--lib', name], cwd=os.path.join(scratch, crate_dir), env=env, capture_output=True, text=True)
+    native = p.stdout[-2500:] + '\n--- stderr ---\n' + p.stderr[-1200:]
+    reproduced = None
+    if 'test result: FAILED' in native or 'panicked at' in native or 'error: test failed' in native: reproduced = True
+    elif re.search(r'test result: ok\. [1-9]', native): reproduced = False
+    body = re.search(r'(?ms)^#\[test\]\nfn %s\(\).*?$' % re.escape(name), src)
+    return (body.group(0) if body else name), native, reproduced
 
 def miri_replay(scratch, test_src, crate, expr, timeout=600):
     """Run `expr` (public API of the scratch copy of the real crate) under Miri with the concrete values of
